@@ -5,4 +5,4 @@ From OV.C12 Require Import OpDefs Model Spec Table.
 Extraction Language OCaml.
 Extraction "../_work/extract/C12/model.ml"
   pinned fixed tokenizeT getHeaderT find_op tok_ops printSeq printToken
-  good spec_roundtrip spec_print.
+  good spec_roundtrip spec_print line_ok.
